@@ -290,6 +290,14 @@ def builders_case(rep, rng):
 					else:
 						kw.update(demand_type={l: 'P' for l in nodes_}, mean={l: 5 for l in nodes_})
 					rep.count('builders:demand-attributes-per-node')
+				# a `supply_type` argument is documented to make no difference: external supply is at the nodes without predecessors, "no matter how
+				# (or whether) the corresponding parameter is set"
+				if rng_l.random() < .4:
+					st_form = rng_l.choice(['scalar', 'dict', 'list'])
+					kw['supply_type'] = 'U' if st_form == 'scalar' else ({l: 'U' for l in nodes_} if st_form == 'dict' else (['U'] * len(nodes_) if not isinstance(kw.get('local_holding_cost'), list) or True else None))
+					if st_form == 'list' and 'node_order_in_lists' in kw:
+						kw['supply_type'] = ['U'] * len(kw['node_order_in_lists'])
+					rep.count('builders:supply_type-argument-' + st_form)
 				case.update(order=order, ds=ds_shape)
 				if kind == 'owmr':
 					net = owmr_system(n, node_order_in_system=order, **kw)
